@@ -3,7 +3,7 @@
 From CCT Require Import Prelude Hex Num Time Formats Json Auth Construct.
 From CCT.Gen Require Pins.
 From CCT.Gen Require Params.
-From CCT.proofs Require Import HexFacts SigFacts AuthFacts SchemaFacts FamilyFacts ConstructFacts TimeFacts.
+From CCT.proofs Require Import HexFacts SigFacts AuthFacts SignableFacts DelegationFacts RootFacts SchemaFacts FamilyFacts ConstructFacts TimeFacts EndToEndFacts.
 From Coq Require Import Lia.
 Open Scope N_scope.
 
@@ -106,6 +106,37 @@ Example C16_witness :
   end.
 Proof. vm_compute. repeat split. Qed.
 
+(* end to end: two roots produced by build_root_metadata with versions z and z+1, the second one carrying valid OpenPGP-mode
+   entries by a threshold of the first one's root keys and by a threshold of its own, form an accepted link of the root chain
+   (builders C16 + envelope verifier C02 + update rule C03), whatever else the two signature maps hold *)
+Theorem C16_built_roots_chain : forall ed_verify sha256 n1 n2 n1' n2' ver ver' klo tzo kk kt ts ex kln tzn kk' kt' ts' ex' md md' z data sm0 sm cso csn,
+  build_root_metadata n1 n2 ver (VList klo) (VInt tzo) kk kt ts ex = Ok md ->
+  build_root_metadata n1' n2' ver' (VList kln) (VInt tzn) kk' kt' ts' ex' = Ok md' ->
+  int_value ver = Some z -> int_value ver' = Some (z + 1)%Z ->
+  canonserialize md' = Ok data ->
+  Forall (fun kv => raw_shape (snd kv) \/ gpg_shape (snd kv)) sm0 ->
+  Forall (fun kv => raw_shape (snd kv) \/ gpg_shape (snd kv)) sm ->
+  Forall (fun kv => entry_small (snd kv)) sm ->
+  NoDup cso -> incl cso sm -> (tzo <= Z.of_nat (length cso))%Z -> Forall (fun kv => valid_entry ed_verify sha256 true klo data (fst kv) (snd kv)) cso ->
+  NoDup csn -> incl csn sm -> (tzn <= Z.of_nat (length csn))%Z -> Forall (fun kv => valid_entry ed_verify sha256 true kln data (fst kv) (snd kv)) csn ->
+  verify_root ed_verify sha256 (env sm0 md) (env sm md') = Ok tt.
+Proof. exact built_roots_chain. Qed.
+
+(* non-vacuity of the chain theorem: with a verification primitive that accepts (a stand-in: the premises about valid entries are
+   then satisfiable by any OpenPGP-shaped entry under a root key), two built roots are linked; with one that refuses, they are not *)
+Definition ex_ck (c : N) := VStr (repeat c 64).
+Definition ex_gpg_entry := VDict [(VStr (U"other_headers"), VStr (U"04ff")); (VStr (U"signature"), VStr (repeat 48 128))].
+Example C16_chain_witness :
+  match build_root_metadata 0 0 (VInt 1) (VList [ex_ck 97; ex_ck 98]) (VInt 2) (VList [ex_ck 99]) (VInt 1) (VStr (U"2020-01-01T00:00:00Z")) (VStr (U"2030-01-01T00:00:00Z")),
+        build_root_metadata 0 0 (VInt 2) (VList [ex_ck 98]) (VInt 1) (VList [ex_ck 99]) (VInt 1) (VStr (U"2021-01-01T00:00:00Z")) (VStr (U"2031-01-01T00:00:00Z")) with
+  | Ok md, Ok md' =>
+      verify_root (fun _ _ _ => true) (fun x => x) (env [] md) (env [(ex_ck 97, ex_gpg_entry); (ex_ck 98, ex_gpg_entry)] md') = Ok tt
+      /\ verify_root (fun _ _ _ => true) (fun x => x) (env [] md) (env [(ex_ck 98, ex_gpg_entry)] md') = Err SignatureError
+      /\ verify_root (fun _ _ _ => false) (fun x => x) (env [] md) (env [(ex_ck 97, ex_gpg_entry); (ex_ck 98, ex_gpg_entry)] md') = Err SignatureError
+  | _, _ => False
+  end.
+Proof. vm_compute. repeat split. Qed.
+
 (* BEGIN SOURCE PINS -- written by harness/mkpins.py; the list is what Gen/Pins.v held for the tree the model was validated against *)
 (* the functions of the package this property depends on (call-graph closure of its entry points), each with the fingerprint of its
    logic (AST without docstrings, annotations, messages, local names): the model and the correspondence runs were validated against
@@ -127,6 +158,8 @@ Theorem C16_source_pinned : CCT.Gen.Pins.pinned_C16 =
 Proof. reflexivity. Qed.
 (* END SOURCE PINS *)
 
+Print Assumptions C16_built_roots_chain.
+Print Assumptions C16_chain_witness.
 Print Assumptions C16_builder_ok_or_argument_error.
 Print Assumptions C16_root_builder_ok_or_argument_error.
 Print Assumptions C16_build_ok_iff.
